@@ -30,6 +30,8 @@ type valCase struct {
 	// text-case variant: 0 lower, 1 upper, 2 mixed; Pad = white space around GUID text
 	Case int    `json:"case"`
 	Pad  string `json:"pad,omitempty"`
+	// bytes that follow the 16 in the buffer handed to Unmarshal (which reports how many it consumed)
+	Tail vf.Hex `json:"tail,omitempty"`
 }
 
 func canon(b []byte) string {
@@ -102,8 +104,13 @@ func bitPatterns(yield func(valCase)) {
 		for j := range c {
 			c[j] = ^b[j]
 		}
-		yield(valCase{B: b, Case: i % 3})
-		yield(valCase{B: c, Case: (i + 1) % 3})
+		// every third pattern is followed by 1..8 bytes of the caller's next field
+		var tail []byte
+		if i%3 == 0 {
+			tail = bytes.Repeat([]byte{0xEE}, 1+i%8)
+		}
+		yield(valCase{B: b, Case: i % 3, Tail: tail})
+		yield(valCase{B: c, Case: (i + 1) % 3, Tail: tail})
 	}
 	yield(valCase{B: make([]byte, 16)})
 	yield(valCase{B: bytes.Repeat([]byte{0xff}, 16), Case: 1})
@@ -115,7 +122,11 @@ func genVal(t *rapid.T) valCase {
 	if rapid.Bool().Draw(t, "padded") {
 		pad = rapid.SampledFrom([]string{" ", "\t", "\n", "  \r\n"}).Draw(t, "pad")
 	}
-	return valCase{B: b, Case: rapid.IntRange(0, 2).Draw(t, "case"), Pad: pad}
+	var tail []byte
+	if rapid.IntRange(0, 2).Draw(t, "followed") == 0 {
+		tail = rapid.SliceOfN(rapid.Byte(), 1, 8).Draw(t, "tail")
+	}
+	return valCase{B: b, Case: rapid.IntRange(0, 2).Draw(t, "case"), Pad: pad, Tail: tail}
 }
 
 // ---- generic UUID binary/text ---------------------------------------------------
@@ -127,10 +138,12 @@ type uuidLike interface {
 	String() string
 }
 
-func checkUUIDOne(name string, mk func() uuidLike, in []byte, mustAccept bool, cs int) []vf.Finding {
+func checkUUIDOne(name string, mk func() uuidLike, in, tail []byte, mustAccept bool, cs int) []vf.Finding {
 	var fs []vf.Finding
 	u := mk()
-	arg := track(in)
+	// Unmarshal reads one value from the front of a buffer and says how much of it that was; what
+	// follows the 16 bytes belongs to the caller's next field and has no say in the value.
+	arg := track(append(append([]byte{}, in...), tail...))
 	n, err := u.Unmarshal(arg.buf)
 	arg.untouched(name+".Unmarshal", &fs)
 	if err != nil {
@@ -144,11 +157,11 @@ func checkUUIDOne(name string, mk func() uuidLike, in []byte, mustAccept bool, c
 		return fs
 	}
 	if n != 16 {
-		fs = append(fs, vf.F(name+".Unmarshal", "consumed-not-16", "%x: n=%d", in, n))
+		fs = append(fs, vf.F(name+".Unmarshal", "consumed-not-16", "%x (followed by %x): n=%d", in, tail, n))
 	}
 	out, err := u.Marshal()
 	if err != nil || !bytes.Equal(out, in) {
-		fs = append(fs, vf.F(name+".Marshal", "marshal-unmarshal-not-identity", "%x -> %x (%v)", in, out, err))
+		fs = append(fs, vf.F(name+".Marshal", "marshal-unmarshal-not-identity", "%x (followed by %x) -> %x (%v)", in, tail, out, err))
 	}
 	// repeatable
 	out2, _ := u.Marshal()
@@ -188,7 +201,7 @@ func checkUUIDOne(name string, mk func() uuidLike, in []byte, mustAccept bool, c
 
 func checkUUIDAll(c valCase) []vf.Finding {
 	var fs []vf.Finding
-	fs = append(fs, checkUUIDOne("uuid.UUID", func() uuidLike { return &uuid.UUID{} }, c.B, true, c.Case)...)
+	fs = append(fs, checkUUIDOne("uuid.UUID", func() uuidLike { return &uuid.UUID{} }, c.B, c.Tail, true, c.Case)...)
 	ver := c.B[6] >> 4
 	for _, v := range []struct {
 		name string
@@ -200,9 +213,9 @@ func checkUUIDAll(c valCase) []vf.Finding {
 		{"uuid_v8.UUIDv8", func() uuidLike { return &uuid_v8.UUIDv8{} }, 8},
 	} {
 		// as given (accepted iff the version nibble matches) and with the nibble forced
-		fs = append(fs, checkUUIDOne(v.name, v.mk, c.B, ver == v.ver, c.Case)...)
+		fs = append(fs, checkUUIDOne(v.name, v.mk, c.B, c.Tail, ver == v.ver, c.Case)...)
 		if ver != v.ver {
-			fs = append(fs, checkUUIDOne(v.name, v.mk, withVersion(c.B, v.ver), true, c.Case)...)
+			fs = append(fs, checkUUIDOne(v.name, v.mk, withVersion(c.B, v.ver), c.Tail, true, c.Case)...)
 		}
 	}
 	return fs
@@ -271,19 +284,59 @@ type v1Fields struct {
 	UnixNs   int64  `json:"unix_ns_100"` // multiple of 100, within 1700..2200
 	// seconds east of UTC of the Location the time value carries (SetTime is defined on the instant)
 	Zone int `json:"zone_offset_s,omitempty"`
+	// the order in which the four assignments are made (indices into v1Steps); absent = as listed
+	Order []int `json:"order,omitempty"`
+}
+
+// The fields of a value are independent of each other: the caller may assign them in any order.
+var v1Steps = []string{"Time", "SetClockSequence", "Variant", "SetNodeID"}
+
+// stepOrder returns a stored order if it is a permutation of 0..n-1, the identity otherwise.
+func stepOrder(order []int, n int) []int {
+	id := make([]int, n)
+	for i := range id {
+		id[i] = i
+	}
+	if len(order) != n {
+		return id
+	}
+	seen := make([]bool, n)
+	for _, k := range order {
+		if k < 0 || k >= n || seen[k] {
+			return id
+		}
+		seen[k] = true
+	}
+	return order
+}
+
+func genOrder(t *rapid.T, n int) []int {
+	id := make([]int, n)
+	for i := range id {
+		id[i] = i
+	}
+	return rapid.Permutation(id).Draw(t, "order")
 }
 
 func checkV1Fields(c v1Fields) []vf.Finding {
 	var fs []vf.Finding
 	u := &uuid_v1.UUIDv1{}
-	u.Time = c.Time
-	u.SetClockSequence(c.ClockSeq)
-	u.Variant = c.Variant
-	node := track(c.Node)
-	err := u.SetNodeID(node.buf)
-	node.untouched("UUIDv1.SetNodeID", &fs)
-	if err != nil {
-		return append(fs, vf.F("UUIDv1.SetNodeID", "six-byte-node-rejected", "%v", err))
+	for _, step := range stepOrder(c.Order, len(v1Steps)) {
+		switch v1Steps[step] {
+		case "Time":
+			u.Time = c.Time
+		case "SetClockSequence":
+			u.SetClockSequence(c.ClockSeq)
+		case "Variant":
+			u.Variant = c.Variant
+		case "SetNodeID":
+			node := track(c.Node)
+			err := u.SetNodeID(node.buf)
+			node.untouched("UUIDv1.SetNodeID", &fs)
+			if err != nil {
+				return append(fs, vf.F("UUIDv1.SetNodeID", "six-byte-node-rejected", "%v", err))
+			}
+		}
 	}
 	txt := u.String()
 	p := &uuid_v1.UUIDv1{}
@@ -320,7 +373,7 @@ func checkV1Fields(c v1Fields) []vf.Finding {
 		fs = append(fs, vf.F("UUIDv1.GetTime", "time-not-preserved", "%v -> %q -> %v", tm.UTC(), w.String(), q.GetTime().UTC()))
 	}
 	// independent: ticks since 1582-10-15 = unix100 + 0x01B21DD213814000
-	if want := uint64(c.UnixNs/100 + 0x01B21DD213814000); w.Time != want {
+	if want := uint64(c.UnixNs/100 + uuidEpochOffset); w.Time != want {
 		fs = append(fs, vf.F("UUIDv1.SetTime", "timestamp-differs-from-rfc4122", "%v: got %#x want %#x", tm.UTC(), w.Time, want))
 	}
 	return fs
@@ -353,6 +406,7 @@ func TestUUIDv1Fields(t *testing.T) {
 			Variant:  uint8(rapid.IntRange(0, 15).Draw(t, "variant")),
 			UnixNs:   genUnixNs100(t),
 			Zone:     genZoneOffset(t),
+			Order:    genOrder(t, len(v1Steps)),
 		}
 	}, checkV1Fields, func(c v1Fields) bool { return c.Time>>48 != 0 && c.ClockSeq > 0xFF })
 }
@@ -364,29 +418,73 @@ type v2Fields struct {
 	LD       uint8  `json:"local_domain"`
 	Node     vf.Hex `json:"node"`
 	Variant  uint8  `json:"variant"`
+	// ViaSetTime: the timestamp is given as a Go time through SetTime, which fills all 60 bits, instead
+	// of by assigning bits 32..59. DCE 1.1 keeps bits 32..59 of it; the low 32 bits give way to the
+	// local identifier, whatever that is.
+	ViaSetTime bool  `json:"via_set_time,omitempty"`
+	UnixNs     int64 `json:"unix_ns_100,omitempty"` // multiple of 100, within 1700..2200
+	Zone       int   `json:"zone_offset_s,omitempty"`
+	// the order in which the six assignments are made (indices into v2Steps); absent = as listed
+	Order []int `json:"order,omitempty"`
+}
+
+var v2Steps = []string{"Time", "SetLocalDomainNumber", "SetClock", "SetLocalDomain", "SetNodeID", "Variant"}
+
+// uuidEpochOffset: 100 ns ticks from 1582-10-15 to 1970-01-01 (RFC 4122 4.1.4)
+const uuidEpochOffset = 0x01B21DD213814000
+
+// wantTime is the timestamp a version 2 value carries through its text: bits 32..59.
+func (c v2Fields) wantTime() uint64 {
+	if c.ViaSetTime {
+		return uint64(c.UnixNs/100+uuidEpochOffset) &^ 0xFFFFFFFF
+	}
+	return uint64(c.TimeHi28) << 32
+}
+
+func (c v2Fields) goTime() time.Time {
+	tm := time.Unix(0, c.UnixNs).UTC()
+	if c.Zone != 0 {
+		tm = tm.In(time.FixedZone("", c.Zone))
+	}
+	return tm
 }
 
 func checkV2Fields(c v2Fields) []vf.Finding {
 	var fs []vf.Finding
 	u := &uuid_v2.UUIDv2{}
-	u.Time = uint64(c.TimeHi28) << 32
-	u.SetLocalDomainNumber(c.LDN)
-	u.SetClock(c.Clock)
-	u.SetLocalDomain(c.LD)
-	node := track(c.Node)
-	u.SetNodeID(node.buf)
-	node.untouched("UUIDv2.SetNodeID", &fs)
-	u.Variant = c.Variant
+	for _, step := range stepOrder(c.Order, len(v2Steps)) {
+		switch v2Steps[step] {
+		case "Time":
+			if c.ViaSetTime {
+				u.SetTime(c.goTime())
+			} else {
+				u.Time = uint64(c.TimeHi28) << 32
+			}
+		case "SetLocalDomainNumber":
+			u.SetLocalDomainNumber(c.LDN)
+		case "SetClock":
+			u.SetClock(c.Clock)
+		case "SetLocalDomain":
+			u.SetLocalDomain(c.LD)
+		case "SetNodeID":
+			node := track(c.Node)
+			u.SetNodeID(node.buf)
+			node.untouched("UUIDv2.SetNodeID", &fs)
+		case "Variant":
+			u.Variant = c.Variant
+		}
+	}
+	given, want := u.Time, c.wantTime()
 	txt := u.String()
 	p := &uuid_v2.UUIDv2{}
 	if err := p.FromString(recase(txt, int(c.LD)%3)); err != nil {
 		return append(fs, vf.F("UUIDv2.FromString", "own-text-rejected", "%q: %v", txt, err))
 	}
-	if p.Time != u.Time {
-		fs = append(fs, vf.F("UUIDv2.Time", "field-not-preserved", "%#x -> %q -> %#x", u.Time, txt, p.Time))
+	if p.Time != want {
+		fs = append(fs, vf.F("UUIDv2.Time", "field-not-preserved", "%#x -> %q -> %#x, want bits 32..59 = %#x", given, txt, p.Time, want))
 	}
 	if p.GetLocalDomainNumber() != c.LDN {
-		fs = append(fs, vf.F("UUIDv2.LocalDomainNumber", "field-not-preserved", "%#x -> %q -> %#x", c.LDN, txt, p.GetLocalDomainNumber()))
+		fs = append(fs, vf.F("UUIDv2.LocalDomainNumber", "field-not-preserved", "%#x (time %#x) -> %q -> %#x", c.LDN, given, txt, p.GetLocalDomainNumber()))
 	}
 	if p.GetClock() != c.Clock {
 		fs = append(fs, vf.F("UUIDv2.Clock", "field-not-preserved", "%#x -> %q -> %#x", c.Clock, txt, p.GetClock()))
@@ -403,37 +501,65 @@ func checkV2Fields(c v2Fields) []vf.Finding {
 	// DCE 1.1 layout, independently: local id in bytes 0..3, domain in byte 9
 	raw, _ := u.Marshal()
 	if binary.BigEndian.Uint32(raw[0:4]) != c.LDN || raw[9] != c.LD || !bytes.Equal(raw[10:16], c.Node) || raw[6]>>4 != 2 {
-		fs = append(fs, vf.F("UUIDv2.Marshal", "layout-differs-from-dce", "%x for ldn %#x ld %#x node %x", raw, c.LDN, c.LD, c.Node))
+		fs = append(fs, vf.F("UUIDv2.Marshal", "layout-differs-from-dce", "%x for ldn %#x ld %#x node %x (time %#x)", raw, c.LDN, c.LD, c.Node, given))
 	}
 	return fs
+}
+
+// local identifiers: 0 (root, or none), a uid/gid as systems hand them out, any 32-bit value
+func genLDN(t *rapid.T) uint32 {
+	switch rapid.IntRange(0, 3).Draw(t, "ldnClass") {
+	case 0:
+		return 0
+	case 1:
+		return uint32(rapid.IntRange(1, 65535).Draw(t, "ldnSmall"))
+	}
+	return rapid.Uint32().Draw(t, "ldn")
 }
 
 func TestUUIDv2Fields(t *testing.T) {
 	s := vf.Begin(t, P, "uuidv2-fields")
 	vf.Rapid(s, vf.N(20000, 300000), func(t *rapid.T) v2Fields {
-		return v2Fields{
-			TimeHi28: uint32(rapid.IntRange(0, 1<<28-1).Draw(t, "t")),
-			LDN:      rapid.Uint32().Draw(t, "ldn"),
-			Clock:    uint8(rapid.IntRange(0, 15).Draw(t, "clock")),
-			LD:       rapid.Byte().Draw(t, "ld"),
-			Node:     rapid.SliceOfN(rapid.Byte(), 6, 6).Draw(t, "node"),
-			Variant:  uint8(rapid.IntRange(0, 15).Draw(t, "variant")),
+		c := v2Fields{
+			LDN:     genLDN(t),
+			Clock:   uint8(rapid.IntRange(0, 15).Draw(t, "clock")),
+			LD:      rapid.Byte().Draw(t, "ld"),
+			Node:    rapid.SliceOfN(rapid.Byte(), 6, 6).Draw(t, "node"),
+			Variant: uint8(rapid.IntRange(0, 15).Draw(t, "variant")),
+			Order:   genOrder(t, len(v2Steps)),
 		}
-	}, checkV2Fields, func(c v2Fields) bool { return c.TimeHi28 > 0xFFFF && c.LDN > 0xFFFF })
+		if rapid.Bool().Draw(t, "viaSetTime") {
+			c.ViaSetTime, c.UnixNs, c.Zone = true, genUnixNs100(t), genZoneOffset(t)
+		} else {
+			c.TimeHi28 = uint32(rapid.IntRange(0, 1<<28-1).Draw(t, "t"))
+		}
+		return c
+	}, checkV2Fields, func(c v2Fields) bool {
+		// the timestamp's high part is set, and so is either the local id's or (through SetTime) the
+		// part of the timestamp that has to give way to it
+		return c.wantTime()>>48 != 0 && (c.LDN > 0xFFFF || (c.ViaSetTime && uint32(c.UnixNs/100+uuidEpochOffset) != 0))
+	})
 }
 
 type v8Fields struct {
 	Data    vf.Hex `json:"data15"`
 	Variant uint8  `json:"variant"`
+	// the variant is assigned before the data instead of after it
+	VariantFirst bool `json:"variant_first,omitempty"`
 }
 
 func checkV8Fields(c v8Fields) []vf.Finding {
 	var fs []vf.Finding
 	u := &uuid_v8.UUIDv8{}
+	if c.VariantFirst {
+		u.Variant = c.Variant
+	}
 	data := track(c.Data)
 	u.SetData(data.buf)
 	data.untouched("UUIDv8.SetData", &fs)
-	u.Variant = c.Variant
+	if !c.VariantFirst {
+		u.Variant = c.Variant
+	}
 	txt := u.String()
 	p := &uuid_v8.UUIDv8{}
 	if err := p.FromString(txt); err != nil {
@@ -455,7 +581,7 @@ func checkV8Fields(c v8Fields) []vf.Finding {
 func TestUUIDv8Fields(t *testing.T) {
 	s := vf.Begin(t, P, "uuidv8-fields")
 	vf.Rapid(s, vf.N(20000, 300000), func(t *rapid.T) v8Fields {
-		return v8Fields{rapid.SliceOfN(rapid.Byte(), 15, 15).Draw(t, "data"), uint8(rapid.IntRange(0, 15).Draw(t, "variant"))}
+		return v8Fields{rapid.SliceOfN(rapid.Byte(), 15, 15).Draw(t, "data"), uint8(rapid.IntRange(0, 15).Draw(t, "variant")), rapid.Bool().Draw(t, "variantFirst")}
 	}, checkV8Fields, func(c v8Fields) bool { return c.Data[6] != 0 && c.Data[7] != 0 })
 }
 
@@ -658,6 +784,313 @@ func TestGUIDFields(t *testing.T) {
 	vf.Rapid(s, vf.N(10000, 150000), func(t *rapid.T) guidFields {
 		return guidFields{rapid.Uint32().Draw(t, "a"), rapid.Uint16().Draw(t, "b"), rapid.Uint16().Draw(t, "c"), rapid.Uint16().Draw(t, "d"), rapid.Uint64Range(0, 1<<48-1).Draw(t, "e")}
 	}, checkGUIDFields, func(c guidFields) bool { return c.D > 0xFF && c.E > 0xFFFFFFFF })
+}
+
+// ---- format, change one field, format again -------------------------------------------------------
+//
+// "For every field assignment, formatting then parsing returns the same fields" holds for the
+// assignment a caller makes last as much as for the first ones: a value that has been formatted (or
+// obtained by parsing) and then has one field changed, through its setter or by assignment, must
+// format exactly as a value that was given the same fields without being formatted in between, and
+// its text must parse to the changed field. (A formatter that keeps the wire form it produced once
+// and hands it out again satisfies every build-once round trip.)
+//
+// Field values are cut from 16 random bytes, each within its width; the version 1 clock sequence
+// stays within the 12 bits the library keeps (the recorded finding about its width is the business
+// of rfc4122-fields and uuidv1-fields).
+
+type changeCase struct {
+	Type  string `json:"type"`  // UUIDv1, UUIDv2, UUIDv8, GUID
+	X     vf.Hex `json:"x16"`   // the fields the value has first
+	Y     vf.Hex `json:"y16"`   // where the new value of the one field comes from
+	Field string `json:"field"` // the setter called, or the field assigned
+	// the value is first obtained by parsing the text of x's fields instead of by assignment
+	Parsed bool `json:"parsed,omitempty"`
+	// what is called before the change: 0 the text formatter(s), 1 the binary one, 2 both
+	First  int   `json:"formatted_first_by"`
+	UnixNs int64 `json:"unix_ns_100,omitempty"` // the Go time given when Field is SetTime
+	Zone   int   `json:"zone_offset_s,omitempty"`
+}
+
+// changeKind describes one type for the purposes of this sub-check. Values travel as `any`; every
+// closure of a kind knows its own type.
+type changeKind struct {
+	fields []string       // what can be set
+	slot   map[string]int // which entry of cut/read a field shows up in
+	// cut renders the field values that 16 bytes stand for (no library code involved)
+	cut func(b []byte) []string
+	// timeSlot renders what the time slot must read after SetTime(unix100 ticks)
+	timeSlot func(unix100 int64) string
+	build    func(b []byte) any
+	set      func(o any, field string, b []byte, tm time.Time)
+	text     func(o any) []string
+	binary   func(o any) []string
+	parse    func(txt string) (any, error)
+	read     func(o any) []string
+}
+
+func be48(b []byte) uint64 {
+	return uint64(binary.BigEndian.Uint16(b[0:2]))<<32 | uint64(binary.BigEndian.Uint32(b[2:6]))
+}
+
+func hx(v any) string { return fmt.Sprintf("%x", v) }
+
+func uuidBinary(o any) []string {
+	b, err := o.(uuidLike).Marshal()
+	return []string{hx(b), fmt.Sprint(err)}
+}
+
+var changeKinds = map[string]changeKind{
+	"UUIDv1": {
+		fields: []string{"Time", "SetTime", "SetClockSequence", "Variant", "SetNodeID"},
+		slot:   map[string]int{"Time": 0, "SetTime": 0, "SetClockSequence": 1, "Variant": 2, "SetNodeID": 3},
+		cut: func(b []byte) []string {
+			return []string{hx(binary.BigEndian.Uint64(b[0:8]) & (1<<60 - 1)), hx(binary.BigEndian.Uint16(b[8:10]) & 0x0FFF), hx(b[8] >> 4), hx(b[10:16])}
+		},
+		timeSlot: func(unix100 int64) string { return hx(uint64(unix100 + uuidEpochOffset)) },
+		build: func(b []byte) any {
+			u := &uuid_v1.UUIDv1{}
+			u.Time = binary.BigEndian.Uint64(b[0:8]) & (1<<60 - 1)
+			u.SetClockSequence(binary.BigEndian.Uint16(b[8:10]) & 0x0FFF)
+			u.Variant = b[8] >> 4
+			u.SetNodeID(append([]byte{}, b[10:16]...))
+			return u
+		},
+		set: func(o any, field string, b []byte, tm time.Time) {
+			u := o.(*uuid_v1.UUIDv1)
+			switch field {
+			case "Time":
+				u.Time = binary.BigEndian.Uint64(b[0:8]) & (1<<60 - 1)
+			case "SetTime":
+				u.SetTime(tm)
+			case "SetClockSequence":
+				u.SetClockSequence(binary.BigEndian.Uint16(b[8:10]) & 0x0FFF)
+			case "Variant":
+				u.Variant = b[8] >> 4
+			case "SetNodeID":
+				u.SetNodeID(append([]byte{}, b[10:16]...))
+			}
+		},
+		text:   func(o any) []string { return []string{o.(*uuid_v1.UUIDv1).String()} },
+		binary: uuidBinary,
+		parse: func(txt string) (any, error) {
+			u := &uuid_v1.UUIDv1{}
+			return u, u.FromString(txt)
+		},
+		read: func(o any) []string {
+			u := o.(*uuid_v1.UUIDv1)
+			return []string{hx(u.Time), hx(u.GetClockSequence()), hx(u.Variant), hx(u.GetNodeID())}
+		},
+	},
+	"UUIDv2": {
+		fields: []string{"Time", "SetTime", "SetLocalDomainNumber", "SetClock", "SetLocalDomain", "SetNodeID", "Variant"},
+		slot:   map[string]int{"Time": 0, "SetTime": 0, "SetLocalDomainNumber": 1, "SetClock": 2, "SetLocalDomain": 3, "SetNodeID": 4, "Variant": 5},
+		cut: func(b []byte) []string {
+			return []string{hx(uint64(binary.BigEndian.Uint32(b[4:8])&0x0FFFFFFF) << 32), hx(binary.BigEndian.Uint32(b[0:4])), hx(b[8] & 0x0F), hx(b[9]), hx(b[10:16]), hx(b[8] >> 4)}
+		},
+		// DCE 1.1 keeps bits 32..59 of the timestamp
+		timeSlot: func(unix100 int64) string { return hx(uint64(unix100+uuidEpochOffset) &^ 0xFFFFFFFF) },
+		build: func(b []byte) any {
+			u := &uuid_v2.UUIDv2{}
+			u.Time = uint64(binary.BigEndian.Uint32(b[4:8])&0x0FFFFFFF) << 32
+			u.SetLocalDomainNumber(binary.BigEndian.Uint32(b[0:4]))
+			u.SetClock(b[8] & 0x0F)
+			u.SetLocalDomain(b[9])
+			u.SetNodeID(append([]byte{}, b[10:16]...))
+			u.Variant = b[8] >> 4
+			return u
+		},
+		set: func(o any, field string, b []byte, tm time.Time) {
+			u := o.(*uuid_v2.UUIDv2)
+			switch field {
+			case "Time":
+				u.Time = uint64(binary.BigEndian.Uint32(b[4:8])&0x0FFFFFFF) << 32
+			case "SetTime":
+				u.SetTime(tm)
+			case "SetLocalDomainNumber":
+				u.SetLocalDomainNumber(binary.BigEndian.Uint32(b[0:4]))
+			case "SetClock":
+				u.SetClock(b[8] & 0x0F)
+			case "SetLocalDomain":
+				u.SetLocalDomain(b[9])
+			case "SetNodeID":
+				u.SetNodeID(append([]byte{}, b[10:16]...))
+			case "Variant":
+				u.Variant = b[8] >> 4
+			}
+		},
+		text:   func(o any) []string { return []string{o.(*uuid_v2.UUIDv2).String()} },
+		binary: uuidBinary,
+		parse: func(txt string) (any, error) {
+			u := &uuid_v2.UUIDv2{}
+			return u, u.FromString(txt)
+		},
+		read: func(o any) []string {
+			u := o.(*uuid_v2.UUIDv2)
+			return []string{hx(u.Time), hx(u.GetLocalDomainNumber()), hx(u.GetClock()), hx(u.GetLocalDomain()), hx(u.GetNodeID()), hx(u.Variant)}
+		},
+	},
+	"UUIDv8": {
+		fields: []string{"SetData", "Variant"},
+		slot:   map[string]int{"SetData": 0, "Variant": 1},
+		cut:    func(b []byte) []string { return []string{hx(b[0:15]), hx(b[15] & 0x0F)} },
+		build: func(b []byte) any {
+			u := &uuid_v8.UUIDv8{}
+			u.SetData(append([]byte{}, b[0:15]...))
+			u.Variant = b[15] & 0x0F
+			return u
+		},
+		set: func(o any, field string, b []byte, _ time.Time) {
+			u := o.(*uuid_v8.UUIDv8)
+			switch field {
+			case "SetData":
+				u.SetData(append([]byte{}, b[0:15]...))
+			case "Variant":
+				u.Variant = b[15] & 0x0F
+			}
+		},
+		text:   func(o any) []string { return []string{o.(*uuid_v8.UUIDv8).String()} },
+		binary: uuidBinary,
+		parse: func(txt string) (any, error) {
+			u := &uuid_v8.UUIDv8{}
+			return u, u.FromString(txt)
+		},
+		read: func(o any) []string {
+			u := o.(*uuid_v8.UUIDv8)
+			return []string{hx(u.GetData()), hx(u.Variant)}
+		},
+	},
+	"GUID": {
+		fields: []string{"A", "B", "C", "D", "E"},
+		slot:   map[string]int{"A": 0, "B": 1, "C": 2, "D": 3, "E": 4},
+		cut: func(b []byte) []string {
+			return []string{hx(binary.BigEndian.Uint32(b[0:4])), hx(binary.BigEndian.Uint16(b[4:6])), hx(binary.BigEndian.Uint16(b[6:8])), hx(binary.BigEndian.Uint16(b[8:10])), hx(be48(b[10:16]))}
+		},
+		build: func(b []byte) any {
+			return &guid.GUID{A: binary.BigEndian.Uint32(b[0:4]), B: binary.BigEndian.Uint16(b[4:6]), C: binary.BigEndian.Uint16(b[6:8]), D: binary.BigEndian.Uint16(b[8:10]), E: be48(b[10:16])}
+		},
+		set: func(o any, field string, b []byte, _ time.Time) {
+			g := o.(*guid.GUID)
+			switch field {
+			case "A":
+				g.A = binary.BigEndian.Uint32(b[0:4])
+			case "B":
+				g.B = binary.BigEndian.Uint16(b[4:6])
+			case "C":
+				g.C = binary.BigEndian.Uint16(b[6:8])
+			case "D":
+				g.D = binary.BigEndian.Uint16(b[8:10])
+			case "E":
+				g.E = be48(b[10:16])
+			}
+		},
+		text: func(o any) []string {
+			g := o.(*guid.GUID)
+			// format D first: it is the one parse reads
+			return []string{g.ToFormatD(), g.ToFormatN(), g.ToFormatB(), g.ToFormatP(), g.ToFormatX()}
+		},
+		binary: func(o any) []string { return []string{hx(o.(*guid.GUID).ToBytes())} },
+		parse: func(txt string) (any, error) {
+			g, err := guid.FromString(txt)
+			if err == nil && g == nil {
+				err = fmt.Errorf("nil GUID and nil error")
+			}
+			return g, err
+		},
+		read: func(o any) []string {
+			g := o.(*guid.GUID)
+			return []string{hx(g.A), hx(g.B), hx(g.C), hx(g.D), hx(g.E)}
+		},
+	},
+}
+
+var changeTypes = []string{"UUIDv1", "UUIDv2", "UUIDv8", "GUID"}
+
+func (c changeCase) goTime() time.Time {
+	tm := time.Unix(0, c.UnixNs).UTC()
+	if c.Zone != 0 {
+		tm = tm.In(time.FixedZone("", c.Zone))
+	}
+	return tm
+}
+
+// expected renders the fields the value must have after the change.
+func (c changeCase) expected(k changeKind) []string {
+	want := k.cut(c.X)
+	if c.Field == "SetTime" {
+		want[k.slot[c.Field]] = k.timeSlot(c.UnixNs / 100)
+	} else {
+		want[k.slot[c.Field]] = k.cut(c.Y)[k.slot[c.Field]]
+	}
+	return want
+}
+
+func checkChange(c changeCase) []vf.Finding {
+	var fs []vf.Finding
+	k, ok := changeKinds[c.Type]
+	if !ok || len(c.X) != 16 || len(c.Y) != 16 {
+		return nil
+	}
+	if _, ok := k.slot[c.Field]; !ok {
+		return nil
+	}
+	who := c.Type + "." + c.Field
+	tm := c.goTime()
+	u := k.build(c.X)
+	if c.Parsed {
+		p, err := k.parse(k.text(u)[0])
+		if err != nil || !reflect.DeepEqual(k.read(p), k.cut(c.X)) {
+			return nil // text -> fields of a value built once is judged by the *-fields sub-checks
+		}
+		u = p
+	}
+	// the value is used ...
+	var before []string
+	if c.First != 1 {
+		before = append(before, k.text(u)...)
+	}
+	if c.First != 0 {
+		before = append(before, k.binary(u)...)
+	}
+	// ... one field changes ...
+	k.set(u, c.Field, c.Y, tm)
+	// ... and it is used again. The same fields, never formatted before:
+	w := k.build(c.X)
+	k.set(w, c.Field, c.Y, tm)
+	got, want := append(k.text(u), k.binary(u)...), append(k.text(w), k.binary(w)...)
+	if !reflect.DeepEqual(got, want) {
+		fs = append(fs, vf.F(who, "format-after-change-differs-from-new-value", "fields %v, formatted (%v), then %s changed: formats as %v; a new value with the same fields formats as %v", k.cut(c.X), before, c.Field, got, want))
+	}
+	p, err := k.parse(got[0])
+	if err != nil {
+		return append(fs, vf.F(who, "own-text-rejected", "%q: %v", got[0], err))
+	}
+	if has, exp := k.read(p), c.expected(k); !reflect.DeepEqual(has, exp) {
+		fs = append(fs, vf.F(who, "fields-not-preserved-after-change", "fields %v, formatted, then %s changed: text %q parses to %v, want %v", k.cut(c.X), c.Field, got[0], has, exp))
+	}
+	return fs
+}
+
+func TestReformatAfterChange(t *testing.T) {
+	s := vf.Begin(t, P, "reformat-after-change")
+	vf.Rapid(s, vf.N(8000, 120000), func(t *rapid.T) changeCase {
+		c := changeCase{
+			Type:   rapid.SampledFrom(changeTypes).Draw(t, "type"),
+			X:      rapid.SliceOfN(rapid.Byte(), 16, 16).Draw(t, "x"),
+			Y:      rapid.SliceOfN(rapid.Byte(), 16, 16).Draw(t, "y"),
+			Parsed: rapid.Bool().Draw(t, "parsed"),
+			First:  rapid.IntRange(0, 2).Draw(t, "first"),
+		}
+		c.Field = rapid.SampledFrom(changeKinds[c.Type].fields).Draw(t, "field")
+		if c.Field == "SetTime" {
+			c.UnixNs, c.Zone = genUnixNs100(t), genZoneOffset(t)
+		}
+		return c
+	}, checkChange, func(c changeCase) bool {
+		// the change changes something
+		k := changeKinds[c.Type]
+		return k.cut(c.X)[k.slot[c.Field]] != c.expected(k)[k.slot[c.Field]]
+	})
 }
 
 // ---- decoding into a receiver that already holds a value ---------------------------------------
